@@ -117,6 +117,10 @@ def gen_shuffle(r, tier):
             ops.append(f"cv.sensor id=s0 avg={fx(float(t))} val={fx(float(t))}")
             for c in allc:
                 ops.append(f"cv.eval id={c} now=1000")
+                if c.startswith("F") and r.chance(0.4):
+                    # two controllers sharing the curve evaluate it at the same moment (the first suspended inside a
+                    # member's sensor read): both results are values of the curve at this temperature
+                    ops.append(f"cv.evalpair id={c} gate=s0 n={r.range(1, 3)} now=1000")
     return ops
 
 
@@ -186,7 +190,9 @@ class C07(Prop):
             "direct loop and non-decreasing PWM maps. non-trivial = distinct (curve shapes, function types, grid length bucket)")
     assumptions = ["step speeds that are not binary32-representable fall into the recorded known finding C07-float32-hop "
                    "(the float32 cast in the interpolation can lift a value over x.5 just below a knot)"]
-    streams = [Stream("sweep", gen_sweeps, parallel=8), Stream("shuffle", gen_shuffle, parallel=8), Stream("request", gen_requests, parallel=8)]
+    streams = [Stream("sweep", gen_sweeps, parallel=8), Stream("shuffle", gen_shuffle, parallel=8),
+               Stream("pairdrop", lambda r, tier: streams.gen_pairdrop(r, 30 if tier == "quick" else 1500), parallel=8),
+               Stream("request", gen_requests, parallel=8)]
 
     def search_streams(self):
         return [(self.streams[0], gen_sweeps_focus)]
@@ -206,23 +212,45 @@ class C07(Prop):
                         break
                     last_t, last_w = t, w
                 continue
+            if name == "pairdrop":
+                # a curve's value is a function of the temperatures it read: the suspended evaluation must give what the
+                # sequential evaluation just before it gave, the other one what the sequential evaluation just after gives
+                for i, (op, g) in enumerate(zip(cops, cgo)):
+                    if not op.startswith("cv.evalpair") or i == 0 or i + 1 >= len(cops):
+                        continue
+                    before, after, got = cgo[i - 1].split()[0], cgo[i + 1].split()[0], kv(g)
+                    if before.startswith("i") and got.get("a") != before:
+                        out.append(viol(f"curve {kv(op)['id']} gave {before} for these temperatures, but {got.get('a')} when a second controller "
+                                        "evaluated it at the same moment after another sensor had changed", cops, cgo, upto=i + 1))
+                        break
+                    if after.startswith("i") and got.get("b") != after:
+                        out.append(viol(f"curve {kv(op)['id']}: the overlapping evaluation gave {got.get('b')}, the curve's value for that state is {after}",
+                                        cops, cgo, upto=i + 1))
+                        break
+                continue
             if name == "shuffle":
                 seen, temp, bad = {}, None, False
                 for i, (op, g) in enumerate(zip(cops, cgo)):
                     if op.startswith("cv.sensor"):
                         temp = bits2f(int(kv(op)["avg"][1:], 16))
-                    elif op.startswith("cv.eval") and g.startswith("i") and temp is not None:
+                    elif op.startswith("cv.eval") and temp is not None and (g.startswith("i") or op.startswith("cv.evalpair")):
                         cid = kv(op)["id"]
-                        v = int(g.split()[0][1:])
-                        for (t2, v2) in seen.get(cid, []):
+                        if op.startswith("cv.evalpair"):
+                            vs_ = [int(x[1:]) for x in (kv(g).get("a", ""), kv(g).get("b", "")) if x.startswith("i")]
+                        else:
+                            vs_ = [int(g.split()[0][1:])]
+                        for v in vs_:
+                          for (t2, v2) in seen.get(cid, []):
                             if (t2 < temp and v2 > v) or (t2 > temp and v2 < v) or (t2 == temp and v2 != v):
                                 out.append(viol(f"curve {cid}: {v2} at {t2 / 1000} degrees but {v} at {temp / 1000} degrees (evaluated in this order "
                                                 "within one run): hotter means slower", cops, cgo, upto=i))
                                 bad = True
                                 break
+                          if bad:
+                            break
+                          seen.setdefault(cid, []).append((temp, v))
                         if bad:
                             break
-                        seen.setdefault(cid, []).append((temp, v))
                 continue
             last = {}
             rep32 = True
